@@ -118,6 +118,9 @@ def setMany (a : Arr1 α) (is : List Int) (v : α) : Arr1 α :=
 /-- elementwise `a + b` of two vectors -/
 def add [Add α] (a b : Arr1 α) : Arr1 α := ⟨a.n, fun k => a.get k + b.get k⟩
 
+/-- elementwise `a - b` -/
+def sub [Sub α] (a b : Arr1 α) : Arr1 α := ⟨a.n, fun k => a.get k - b.get k⟩
+
 /-- `a + s` (broadcast of a scalar) -/
 def addScalar [Add α] (a : Arr1 α) (s : α) : Arr1 α := ⟨a.n, fun k => a.get k + s⟩
 
@@ -167,6 +170,18 @@ def ofLists [Inhabited α] (l : List (List α)) (cols : Nat) : Arr2 α :=
   ⟨l.length, cols, fun r c => (l.getD r []).getD c default⟩
 
 end Arr2
+
+instance {α} [Zero α] : Inhabited (Arr2 α) := ⟨⟨0, 0, fun _ _ => 0⟩⟩
+
+/-- `f 0 + f 1 + … + f (n-1)`, accumulated from `0` in index order -/
+def sumTo {α} [Zero α] [Add α] (n : Nat) (f : Nat → α) : α := (List.range n).foldl (fun acc i => acc + f i) 0
+
+/-- `x @ M` for a vector and a matrix: entry `j` is `Σ_i x_i M_ij` -/
+def vecMat {α} [Zero α] [Add α] [Mul α] (x : Arr1 α) (M : Arr2 α) : Arr1 α :=
+  ⟨M.cols, fun j => sumTo x.n (fun i => x.get i * M.get i j)⟩
+
+/-- `a @ b` for two vectors -/
+def dot {α} [Zero α] [Add α] [Mul α] (a b : Arr1 α) : α := sumTo a.n (fun j => a.get j * b.get j)
 
 /-- `np.vstack(list of 2-d arrays)`: the blocks one under the other, in list order (NumPy raises when the column
 counts differ; not modelled: the result takes the first block's column count) -/
